@@ -122,6 +122,11 @@ func newSmaWorld(e *Env, prop string) *smaWorld {
 		w.cfgAddrs = append(w.cfgAddrs, ip.String())
 	}
 	sort.Strings(w.cfgAddrs)
+	if len(w.settings.HostIPAddresses) == 1 && t.Chance(1, 2) {
+		// the deprecated single-address field means the same thing
+		w.settings.HostIPAddress, w.settings.HostIPAddresses = w.settings.HostIPAddresses[0], nil
+		e.Probe("deprecated-host-ip-address-field")
+	}
 	w.mach = sm.New(w.settings)
 	// application registrations through the state machine
 	nh := 0
